@@ -140,7 +140,9 @@ def _plane_obj(lentil, st, lam, N):
 def observe_real(w):
     o = {'ptype': str(w.ptype), 'lam': w.wavelength, 'z': w.focal_length,
          'px': None if w.pixelscale is None else tuple(float(v) for v in w.pixelscale),
-         'shape': tuple(int(v) for v in w.shape), 'err': 'none', 'nfields': len(w.data)}
+         'shape': tuple(int(v) for v in w.shape), 'err': 'none', 'nfields': len(w.data),
+         # a Field of exactly one sample is what lentil treats as an infinite constant (known finding C03/C06/C07)
+         'one_elem': any(np.ndim(f.data) == 2 and np.size(f.data) == 1 for f in w.data)}
     if o['shape'] != ():
         o['field'] = np.array(w.field)
         o['intensity'] = np.array(w.intensity)
@@ -235,6 +237,11 @@ def ring_field(obs, N):
     a = np.asarray(obs['field'], dtype=float) @ w
     nonzero = np.any(np.asarray(obs['field']) != 0, axis=-1)
     return a * math.sqrt(obs['nsq'][0] / obs['nsq'][1]), nonzero
+
+
+def one_element_involved(real_obs):
+    """True if at some step the real wavefront held a one-sample Field (the known one-element quirk)"""
+    return any(o.get('one_elem') for o in real_obs)
 
 
 def compare(case, spec_obs, real_obs, check_meta=True):
